@@ -14,7 +14,7 @@ from .. import harness, rt, zoo
 from ..harness import canon_outcome, run_op
 
 LEVEL = "exploration"
-RUNS = {"quick": 9000, "thorough": 150000}
+RUNS = {"quick": 5000, "thorough": 90000}
 WALL = {"quick": 150, "thorough": 1500}
 RULE = (
     "one run = one seeded history (2-12 ops, 1-3 parsers, optional world edits and injected faults) executed on reused "
@@ -28,7 +28,7 @@ ASSUMPTIONS = [
     "stdin is not part of the histories (CachedStdin is documented caching)",
     "faults only at calls leaving the package (OS calls, user callbacks)",
 ]
-PROBES = ["print-config-pending-at-op-start", "history-after-failure", "pristine-leg", "world-edit", "fault-in-history"]
+PROBES = ["history-after-failure", "pristine-leg", "world-edit", "fault-in-history"]
 ANCHOR_FILES = ("_core", "_actions", "_typehints", "_common", "_link_arguments", "_completions")
 NO_SHRINK = ("parsers/*/opts", "parsers/*/opts/*", "world", "pristine")
 SHRINK_DICTS = ("world/files", "world/env")
@@ -66,7 +66,7 @@ def parser_spec(feats, eoe):
 
 
 ARGV = {
-    "_": [[], ["--help"], ["--unknown=1"], ["--a=1"], ["--a=x"], ["--a", "7"], ["--a"]],
+    "_": [[], ["--help"], ["--unknown=1"], ["--a=1"], ["--a=x"], ["--a", "7"], ["--a"], ["--print_shtab=bash"]],
     "l": [["--l+=1"], ["--l=[1,2]"], ["--l+=x"], ["--l+=[3,4]"]],
     "dd": [["--dd.u=3"], ['--dd={"u":2,"w":[1]}'], ["--dd.zz=1"], ["--dd=null"]],
     "base": [
